@@ -16,8 +16,8 @@ RULE = ("operation sequences (1-60 ops) over add_event/add_events/get_event/get_
         "retrievals and >=1 timestamp tie; distinct = distinct operation-kind/timestamp sequence")
 PROBES = ["tie_same_ts", "tie_same_ts_and_prec", "insert_between_retrievals", "roundtrip", "roundtrip_then_ops",
           "get_current_below_all", "get_current_partial", "nonmonotone_t", "drained_then_reused", "base_event",
-          "restored_vs_original_compared"]
-FAULT_DIMENSION = "restart only: JSON round trip of the queue at arbitrary points of the operation sequence"
+          "restored_vs_original_compared", "failed_bulk_insert"]
+FAULT_DIMENSION = "restart (JSON round trip of the queue at arbitrary points of the operation sequence); a bulk insert that fails part-way (non-event element) and is survived by the caller"
 REAL_VS_STUB = "real: EventQueue, Event classes, EV, Battery, BaseSimObj JSON; ours: sorted-list reference model"
 ASSUMPTIONS = ["get_event on an empty queue is not generated (unspecified)",
                "order inside one (timestamp, precedence) class is unconstrained: compared as multisets"]
@@ -47,8 +47,13 @@ def gen(rs, tier):
         k = r.random()
         if k < 0.3:
             ops.append({"op": "add", "e": _spec(r, nsess, tmax)})
-        elif k < 0.4:
+        elif k < 0.37:
             ops.append({"op": "add_many", "es": [_spec(r, nsess, tmax) for _ in range(r.randint(0, 5))]})
+        elif k < 0.4:
+            # fault inside a bulk insert: one element of the batch is not an event (None); the call fails part-way, the caller
+            # catches the error and carries on with the queue
+            es = [_spec(r, nsess, tmax) for _ in range(r.randint(1, 5))]
+            ops.append({"op": "add_many_fault", "es": es, "at": r.randint(0, len(es))})
         elif k < 0.55:
             ops.append({"op": "get"})
         elif k < 0.72:
@@ -140,6 +145,36 @@ def check(sc):
                     model.extend(mkey(d) for d in op["es"])
                     inserted_since = inserted_since or bool(op["es"])
                     log.append(("add_many", len(op["es"])))
+                elif o == "add_many_fault":
+                    from collections import Counter
+                    from ..driver import classify_exception as _cls
+                    conts = []
+                    for qq, ww in ((q, w), (shadow, w_sh)):
+                        if qq is None:
+                            continue
+                        batch = [ww.make(d) for d in op["es"]]
+                        batch.insert(op["at"], None)
+                        try:
+                            qq.add_events(batch)
+                        except Exception as x:
+                            if _cls(x) == "harness":
+                                raise
+                        conts.append(Counter(key_of(e) for _, e in qq.queue))
+                    out.probe("failed_bulk_insert")
+                    cont = conts[0]
+                    extra = cont - Counter(model)
+                    if (Counter(model) - cont) or (extra - Counter(mkey(d) for d in op["es"])):
+                        out.add("C11/failed_bulk_insert_content", "op %d: after a bulk insert that failed part-way the queue holds %s; pending before "
+                                "%s, batch %s" % (i, sorted(cont.elements(), key=str)[:8], sorted(model, key=str)[:8], [mkey(d) for d in op["es"]]))
+                        break
+                    if len(conts) > 1 and conts[1] != cont:
+                        out.add("C11/restored_differs_from_original", "op %d failed bulk insert: restored queue holds %s, original %s"
+                                % (i, sorted(cont.elements(), key=str)[:8], sorted(conts[1].elements(), key=str)[:8]))
+                        break
+                    if extra:
+                        inserted_since = True
+                    model = list(cont.elements())     # whatever part of the batch was taken in is pending from here on
+                    log.append(("add_many_fault", len(op["es"]), sum(extra.values())))
                 elif o == "get":
                     if not model:
                         continue
@@ -269,7 +304,7 @@ def check(sc):
         if classify_exception(e) == "harness":
             raise
         out.add("C11/exception:" + type(e).__name__, str(e)[:200])
-    allk = [mkey(op["e"]) for op in sc["ops"] if op["op"] == "add"] + [mkey(d) for op in sc["ops"] if op["op"] == "add_many" for d in op["es"]] + [mkey(d) for d in (sc["init"] or [])]
+    allk = [mkey(op["e"]) for op in sc["ops"] if op["op"] == "add"] + [mkey(d) for op in sc["ops"] if op["op"] in ("add_many", "add_many_fault") for d in op["es"]] + [mkey(d) for d in (sc["init"] or [])]
     ts = [k[0] for k in allk]
     tie = len(ts) != len(set(ts))
     tp = [(k[0], PREC[k[1]]) for k in allk]
@@ -279,4 +314,5 @@ def check(sc):
     out.sig = digest([(o["op"], o.get("t"), o.get("e", {}).get("ts")) for o in sc["ops"]])
     out.digest = digest(log)
     out.calls = len(sc["ops"])
+    out.faults = {n_: out.probes[k_] for k_, n_ in (("failed_bulk_insert", "failed_bulk_insert"), ("roundtrip", "json_restart")) if out.probes.get(k_)}
     return out
